@@ -1,10 +1,16 @@
 #!/bin/bash
-# tools/all_seeds.sh : run every stored seeded change against its property's quick check; one line per seed.
+# tools/all_seeds.sh [seed-dir ...]: run every stored seeded change against its property's quick check, in ONE scratch
+# worktree of /repo (the working tree of /repo itself is never touched); one line per seed.
 cd /verif
-for d in seeded/*/; do
+W=/tmp/wt_seedreg_$$
+git -C /repo worktree add -q --detach "$W" HEAD || exit 2
+trap 'cd /; git -C /repo worktree remove --force "$W"' EXIT
+dirs=("$@"); [ ${#dirs[@]} -eq 0 ] && dirs=(seeded/*/)
+for d in "${dirs[@]}"; do
   id=$(basename "$d"); prop=$(python3 -c "import json;print(json.load(open('$d/meta.json'))['property'])")
-  out=$(tools/try_seed.sh "$d/patch.diff" "$prop" 2>&1)
-  if echo "$out" | grep -q "^VIOLATION property=$prop"; then r="CAUGHT"; else r="MISSED ($(echo "$out" | grep "^$prop \[" | cut -c1-80))"; fi
+  if ! git -C "$W" apply "$PWD/$d/patch.diff" 2>/dev/null; then echo "$id PATCH-DOES-NOT-APPLY"; continue; fi
+  out=$(tools/try_seed_wt.sh "$W" "$prop" 2>&1)
+  git -C "$W" checkout -q -- . ; git -C "$W" clean -fdq
+  if echo "$out" | grep -q "^VIOLATION property=$prop"; then r="CAUGHT"; else r="MISSED ($(echo "$out" | grep -E "^$prop \[|exit=" | tr '\n' ' ' | cut -c1-100))"; fi
   echo "$id $r"
 done
-git -C /repo status --short | grep -v '^??' | head -2
